@@ -57,6 +57,10 @@ def getFmt (j : Json) : Fmt :=
     | .num n => some (.lit (Char.ofNat n.mantissa.toNat))
     | _ => none)
 
+def getEnc (j : Json) (k : String) : Option BaEnc :=
+  match getStr j k with
+  | "hex" => some .hex | "base64" => some .base64 | "urlsafe_base64" => some .urlsafe | _ => none
+
 def lexOf (t : String) (s : Text) : Json :=
   match t with
   | "integer" => Json.bool (XsdLex.integer s)
@@ -111,6 +115,11 @@ def step (j : Json) : Json :=
   | "datef.from" =>
     outJson (fun (d : Date) => Json.arr #[d.y, d.m, d.d]) (dateFromTextFmt F (getFmt j) (getText j "s"))
   | "b64ws.from" => optJson natsJson (b64FromText G (getText j "s"))
+  | "ba.to" =>
+    (match byteArrayToTextP G (getEnc j "declared") (getEnc j "suggested") (getEnc j "default") (getNats j "v") with
+     | some t => Json.mkObj [("ok", textJson t)]
+     | none => Json.mkObj [("crash", Json.str "ValueError")])
+  | "ba.from" => optJson natsJson (byteArrayFromTextP (getEnc j "declared") (getEnc j "suggested") (getText j "s"))
   | "fmt.wf" => Json.mkObj [("ok", Json.bool (Fmt.wf (getFmt j)))]
   | "uuid.from" => outJson natsJson (uuidFromText (getText j "s"))
   | "dtc.to" =>
